@@ -5,4 +5,4 @@ cd /verif
 git -C /repo status --porcelain | grep -q . && { echo "/repo not clean"; exit 2; }
 git -C /repo apply /verif/seeded/$ID/patch.diff || exit 2
 for P in "$@"; do VERIF_NO_EVIDENCE=1 ./check.py $P --tier quick 2>&1 | grep -v "^KNOWN" | tail -2; done
-git -C /repo checkout -- . ; git -C /repo status --porcelain
+git -C /repo checkout -- . ; git -C /repo clean -fdq -- src; git -C /repo status --porcelain
